@@ -47,7 +47,7 @@ def _env():
 
 
 def bounds(tier):
-    return {"depth_stateless": 3 if tier == "quick" else 4, "state_cap": 600}
+    return {"depth_stateless": 3 if tier == "quick" else 4, "state_cap": 600, "bfs_time_cap_s": 40 if tier == "quick" else 600}
 
 
 def _ops():
@@ -153,9 +153,15 @@ def run_bfs(shard, tier, h, res, known):
         transitions = 0
         capped = False
         edges = []
-        while frontier:
+        import time
+        t_start = time.time()
+        n_fail = 0
+        while frontier and not capped:
             nxt = []
             for hist in frontier:
+                if n_fail >= 20 or time.time() - t_start > bounds(tier)["bfs_time_cap_s"]:
+                    capped = True      # a violating tree needs no fixpoint; an unexpectedly large space is reported as a cap
+                    break
                 for op in names:
                     d = srv.run(hist + [op])
                     transitions += 1
@@ -163,6 +169,7 @@ def run_bfs(shard, tier, h, res, known):
                     res.nontrivial += 1 if hist else 0
                     out = d["outcomes"][-1]
                     if out != base[op]:
+                        n_fail += 1
                         res.fail({"clause": "history", "family": "bfs", "history": hist + [op], "expected": base[op], "observed": out,
                                   "size": len(hist) + 1}, known)
                     k = d["snapshots"][-1]
